@@ -44,6 +44,8 @@ MESHES = [
     ("patch", {"nx": 3, "ny": 2, "lon0": -30.0, "lon1": 40.0, "tri": 2}),
     ("mix", {"lon_c": 176.0}),
     ("mix", {"lon_c": -20.0, "lat_c": 50.0}),
+    ("patch", {"nx": 3, "ny": 1, "lon0": 150.0, "lon1": 210.0, "lat0": -10.0, "lat1": 15.0}),  # exactly one crossing face
+    ("patch", {"nx": 3, "ny": 2, "lon0": 20.0, "lon1": 80.0, "tri": 6}),  # n_node == n_face == 12
     ("cube", {"n": 2}),
     ("ico", {}),
     ("two", {}),
@@ -72,7 +74,7 @@ def gen_source(rng):
             d["extra"] = ["node_xyz"]
         spec["dialect"] = d
     else:
-        spec["prov"] = "ugrid_mem"
+        spec["prov"] = rng.choice(["ugrid_mem", "ugrid_mem", "esmf_mem"])
         spec["dialect"] = {"lon360": rng.random() < 0.5, "start": rng.choice([0, 1])}
     return spec
 
